@@ -56,6 +56,9 @@ pub struct Case {
     /// Bytes buffered before the call (the rest arrives one byte per read).
     pub pre: usize,
     pub ty: usize,
+    /// The source does not end behind the data, it fails there.
+    #[serde(default)]
+    pub fail_end: bool,
 }
 
 fn type_bounds(ty: usize) -> (String, String) {
@@ -157,11 +160,15 @@ fn call(reader: &mut DeferredReader, off: usize, func: usize, ty: usize) -> (Opt
 pub fn check(c: &Case, obs: &mut Obs) -> CheckResult {
     let ty = c.ty % TYPES.len();
     let data = Rc::new(c.data.clone());
-    let feed = Feed {
+    let mut feed = Feed {
         sched: Schedule::bytewise(),
         chunk: Some(1),
         ctor: Ctor::FromRead,
     };
+    if c.fail_end {
+        feed.sched.fail_at = Some((c.data.len(), crate::source::ErrKind::Other));
+        obs.class("source-fails-behind-the-data");
+    }
     let mut digits_seen = false;
     for func in 0..FUNCS.len() {
         let (mut r, _log) = build_reader(data.clone(), &feed, None);
@@ -319,13 +326,14 @@ fn case_strategy() -> impl Strategy<Value = Case> {
         number,
         0usize..=16,                                       // prefix length (scan offset)
         prop_oneof![3 => Just(0u8), 2 => Just(1u8), 1 => Just(2u8)], // 0 none, 1 '-', 2 '--'/'+'
-        prop_oneof![3 => Just(0usize), 2 => 1usize..=3, 1 => 4usize..=30], // leading zeros
-        any::<u8>(),                                       // terminator
+        prop_oneof![6 => Just(0usize), 4 => 1usize..=3, 2 => 4usize..=30, 1 => proptest::sample::select(vec![7usize, 8, 9, 15, 16, 17, 24, 32, 40])], // leading zeros
+        prop_oneof![3 => any::<u8>(), 1 => proptest::sample::select(b"-+ \n\t0x:/".to_vec())], // terminator
         proptest::collection::vec(prop_oneof![(b'0'..=b'9'), any::<u8>()], 0..12), // tail
         any::<u16>(),                                      // pre-buffered amount selector
         any::<bool>(),                                     // no terminator at all (end of input)
+        proptest::bool::weighted(0.15),                    // the source fails behind the data
     )
-        .prop_map(|((ty, digits), plen, sign, zeros, term, tail, pre, at_end)| {
+        .prop_map(|((ty, digits), plen, sign, zeros, term, tail, pre, at_end, fail_end)| {
             let mut data = Vec::new();
             for i in 0..plen {
                 data.push(b"x7-\n "[i % 5]);
@@ -343,7 +351,7 @@ fn case_strategy() -> impl Strategy<Value = Case> {
                 data.extend_from_slice(&tail);
             }
             let pre = (pre as usize * (data.len() + 9)) >> 16;
-            Case { data, off, pre, ty }
+            Case { data, off, pre, ty, fail_end }
         })
 }
 
